@@ -82,6 +82,102 @@ def _filled_elsewhere(mod, name):
     return memo[name]
 
 
+def _registry_value(mod, name):
+    """What a module-level registry holds once the module is imported, when that is evident from the module alone: the
+    container starts empty (`[]` / `{}` / `list()` / `dict()`), and its only mutation is ONE statement at the top of the body of
+    a module-level function -- `NAME.append(f)` in `def reg(f)` used as `@reg`, or `NAME[key] = f` in the inner function of
+    `def reg(key): def deco(f): ...; return deco` used as `@reg(<key>)` -- which is applied (as a decorator, or called in a
+    module-level expression statement) to functions of the module.  The value is the display of the registered functions in
+    source order.  None when anything else touches the container."""
+    memo = mod.__dict__.setdefault("_registry_value_memo", {})
+    if name in memo:
+        return memo[name]
+    memo[name] = None
+    v0 = mod.assigns.get(name)
+    is_list = (isinstance(v0, ast.List) and not v0.elts) or (isinstance(v0, ast.Call) and A.call_dotted(v0) == "list" and not v0.args and not v0.keywords)
+    is_dict = (isinstance(v0, ast.Dict) and not v0.keys) or (isinstance(v0, ast.Call) and A.call_dotted(v0) in ("dict", "OrderedDict", "collections.OrderedDict")
+                                                             and not v0.args and not v0.keywords)
+    if not (is_list or is_dict):
+        return None
+    # the one mutation site
+    sites = []
+    for n in ast.walk(mod.tree):
+        if isinstance(n, ast.Call) and isinstance(n.func, ast.Attribute) and n.func.attr in _MUTATORS and isinstance(n.func.value, ast.Name) and n.func.value.id == name:
+            sites.append(n)
+        elif isinstance(n, ast.Subscript) and isinstance(n.ctx, (ast.Store, ast.Del)) and isinstance(n.value, ast.Name) and n.value.id == name:
+            sites.append(n)
+        elif isinstance(n, ast.AugAssign) and isinstance(n.target, ast.Name) and n.target.id == name:
+            sites.append(n)
+    stores = [n for n in ast.walk(mod.tree) if isinstance(n, ast.Name) and n.id == name and isinstance(n.ctx, (ast.Store, ast.Del))]
+    if len(sites) != 1 or len(stores) != 1:
+        return None
+    site = sites[0]
+    reg = key_param = None
+    for fn in mod.tree.body:
+        if not isinstance(fn, ast.FunctionDef) or fn.decorator_list:
+            continue
+        a = fn.args
+        if a.vararg or a.kwarg or a.kwonlyargs or a.defaults or len(a.posonlyargs + a.args) != 1:
+            continue
+        p0 = (a.posonlyargs + a.args)[0].arg
+        body = [s for s in fn.body if not (isinstance(s, ast.Expr) and isinstance(s.value, ast.Constant))]
+        if is_list and len(body) == 2 and isinstance(body[0], ast.Expr) and body[0].value is site and site.func.attr == "append" \
+                and len(site.args) == 1 and isinstance(site.args[0], ast.Name) and site.args[0].id == p0 \
+                and isinstance(body[1], ast.Return) and isinstance(body[1].value, ast.Name) and body[1].value.id == p0:
+            reg = fn
+        if is_dict and len(body) == 2 and isinstance(body[0], ast.FunctionDef) and isinstance(body[1], ast.Return) \
+                and isinstance(body[1].value, ast.Name) and body[1].value.id == body[0].name and not body[0].decorator_list:
+            inner = body[0]
+            ia = inner.args
+            ib = [s for s in inner.body if not (isinstance(s, ast.Expr) and isinstance(s.value, ast.Constant))]
+            if not (ia.vararg or ia.kwarg or ia.kwonlyargs or ia.defaults) and len(ia.posonlyargs + ia.args) == 1 and len(ib) == 2:
+                q0 = (ia.posonlyargs + ia.args)[0].arg
+                if isinstance(ib[0], ast.Assign) and len(ib[0].targets) == 1 and ib[0].targets[0] is site and isinstance(site.ctx, ast.Store) \
+                        and isinstance(site.slice, ast.Name) and site.slice.id == p0 and isinstance(ib[0].value, ast.Name) and ib[0].value.id == q0 \
+                        and isinstance(ib[1], ast.Return) and isinstance(ib[1].value, ast.Name) and ib[1].value.id == q0:
+                    reg, key_param = fn, p0
+    if reg is None:
+        return None
+    # every use of the registering function: a decorator of a module-level function
+    uses = [n for n in ast.walk(mod.tree) if isinstance(n, ast.Name) and n.id == reg.name and isinstance(n.ctx, ast.Load)]
+    entries, accounted = [], 0
+    for fn in mod.tree.body:
+        if not isinstance(fn, (ast.FunctionDef, ast.AsyncFunctionDef)):
+            continue
+        for i, d in enumerate(fn.decorator_list):
+            if key_param is None and isinstance(d, ast.Name) and d.id == reg.name:
+                if i != len(fn.decorator_list) - 1:
+                    return None    # what is registered is then not the function itself
+                entries.append((None, ast.copy_location(ast.Name(id=fn.name, ctx=ast.Load()), fn)))
+                accounted += 1
+            elif key_param is not None and isinstance(d, ast.Call) and isinstance(d.func, ast.Name) and d.func.id == reg.name \
+                    and len(d.args) == 1 and not d.keywords and not isinstance(d.args[0], ast.Starred):
+                if i != len(fn.decorator_list) - 1:
+                    return None
+                entries.append((d.args[0], ast.copy_location(ast.Name(id=fn.name, ctx=ast.Load()), fn)))
+                accounted += 1
+    if accounted != len(uses) or not entries:
+        return None
+    # the registered functions keep their names (nothing rebinds them)
+    names = [v.id for (_k, v) in entries]
+    if len(set(names)) != len(names) or any(nm in mod.assigns for nm in names):
+        return None
+    if is_list:
+        out = ast.List(elts=[v for (_k, v) in entries], ctx=ast.Load())
+    else:
+        out = ast.Dict(keys=[k for (k, _v) in entries], values=[v for (_k, v) in entries])
+    ast.copy_location(out, v0)
+    memo[name] = out
+    return out
+
+
+def _module_value(mod, name):
+    """The value a module-level name of `mod` evidently has after import, else None."""
+    if not _filled_elsewhere(mod, name):
+        return mod.assigns[name]
+    return _registry_value(mod, name)
+
+
 def _bound_value(fa, e, at):
     """The expression a name stands for, when that is evident: a local with one reaching plain assignment, a module-level
     name of this module or of the repository module it is imported from, a class-level constant read as `self.X` / `cls.X` /
@@ -94,13 +190,13 @@ def _bound_value(fa, e, at):
             return None
         mod = fa.fi.module
         if e.id in mod.assigns:
-            return None if _filled_elsewhere(mod, e.id) else mod.assigns[e.id]
+            return _module_value(mod, e.id)
         origin = mod.imports.get(e.id)
         if origin and ":" in origin:
             m_, n_ = origin.split(":", 1)
             other = fa.ck.repo.modules.get(m_.lstrip(".").split(".")[-1])
             if other is not None and n_ in other.assigns:
-                return None if _filled_elsewhere(other, n_) else other.assigns[n_]
+                return _module_value(other, n_)
         return None
     if isinstance(e, ast.Attribute) and isinstance(e.value, ast.Name):
         k = fa.fi.cls
@@ -353,6 +449,43 @@ def table_entries(fa, expr, at, _depth=0):
     return None
 
 
+def record_fields(fa, name):
+    """Field names of the NamedTuple / namedtuple / dataclass `name` declared in the function's module or in the repository
+    module it is imported from; None when `name` is no such record."""
+    mods = [fa.fi.module]
+    origin = (getattr(fa.fi.module, "imports", {}) or {}).get(name)
+    if origin and ":" in origin:
+        m_, n_ = origin.split(":", 1)
+        other = fa.ck.repo.modules.get(m_.lstrip(".").split(".")[-1])
+        if other is not None:
+            mods, name = [other], n_
+    for mod in mods:
+        for st in mod.tree.body:
+            if isinstance(st, ast.Assign) and any(isinstance(t, ast.Name) and t.id == name for t in st.targets) and isinstance(st.value, ast.Call) \
+                    and A.call_attr(st.value) in ("NamedTuple", "namedtuple") and len(st.value.args) >= 2:
+                spec = st.value.args[1]
+                if isinstance(spec, (ast.List, ast.Tuple)):
+                    out = []
+                    for e in spec.elts:
+                        if isinstance(e, (ast.Tuple, ast.List)) and e.elts and A.const_str(e.elts[0]):
+                            out.append(A.const_str(e.elts[0]))
+                        elif A.const_str(e):
+                            out.append(A.const_str(e))
+                        else:
+                            return None
+                    return out or None
+                if A.const_str(spec):
+                    return A.const_str(spec).replace(",", " ").split() or None
+                return None
+            if isinstance(st, ast.ClassDef) and st.name == name:
+                is_nt = any("NamedTuple" in A.norm(b) for b in st.bases)
+                is_dc = any(A.norm(d.func if isinstance(d, ast.Call) else d).split(".")[-1] == "dataclass" for d in st.decorator_list)
+                if is_nt or is_dc:
+                    return [s_.target.id for s_ in st.body if isinstance(s_, ast.AnnAssign) and isinstance(s_.target, ast.Name)] or None
+                return None
+    return None
+
+
 def sequence_elements(fa, expr, at, _depth=0):
     """Element expressions of a sequence-building expression, in order: a display, a comprehension / generator over a
     literal sequence, tuple(...) / list(...) of one, a name bound to one.  None if not understood."""
@@ -365,6 +498,30 @@ def sequence_elements(fa, expr, at, _depth=0):
         return None if bs is None else [subst(expr.elt, b) for b in bs]
     if isinstance(expr, ast.Call) and A.call_dotted(expr) in ("tuple", "list") and len(expr.args) == 1 and not expr.keywords:
         return sequence_elements(fa, expr.args[0], at, _depth + 1)
+    if isinstance(expr, ast.Attribute) and expr.attr == "_fields" and isinstance(expr.value, ast.Name) and not fa.df.is_local(expr.value.id):
+        # the field names of a named tuple declared in the repository
+        fs = record_fields(fa, expr.value.id)
+        if fs is not None:
+            return [ast.copy_location(ast.Constant(value=f), expr) for f in fs]
+    if isinstance(expr, ast.Call) and not expr.keywords and len(expr.args) == 1 and not isinstance(expr.args[0], ast.Starred):
+        # operator.itemgetter(k1, k2, ...)(d) is (d[k1], d[k2], ...)
+        getter = expr.func
+        if isinstance(getter, ast.Name) and fa.df.is_local(getter.id):
+            g = _bound_value(fa, getter, at)
+            if g is not None:
+                getter = g
+        if isinstance(getter, ast.Call) and A.call_attr(getter) == "itemgetter" and not getter.keywords:
+            keys = []
+            for a in getter.args:
+                if isinstance(a, ast.Starred):
+                    sub_ = sequence_elements(fa, a.value, at, _depth + 1)
+                    if sub_ is None:
+                        return None
+                    keys += sub_
+                else:
+                    keys.append(a)
+            if len(keys) >= 2:
+                return [ast.copy_location(ast.Subscript(value=expr.args[0], slice=k, ctx=ast.Load()), expr) for k in keys]
     v = _bound_value(fa, expr, at)
     if v is not None:
         if isinstance(expr, ast.Name) and fa.df.is_local(expr.id):
